@@ -237,11 +237,11 @@ func checkKeyidMarshal(c *Ctx, kid *types.Named) {
 	c.Saw(fn)
 	f := w.Facts(fn)
 	var jm *ssa.Call
-	for _, call := range callsTo(fn, "encoding/json.Marshal") {
+	for _, call := range w.callsToDeep(fn, "encoding/json.Marshal") {
 		jm, _ = call.(*ssa.Call)
 	}
 	var chk *ssa.Call
-	for _, call := range callsIn(fn) {
+	for _, call := range w.callsInDeep(fn) {
 		if cv, ok := call.(*ssa.Call); ok && calleeName(cv) == "dynamic" {
 			chk = cv
 		}
@@ -411,7 +411,7 @@ func checkKeyidUnmarshal(c *Ctx, kid *types.Named) {
 		})
 		c.Check(done, "R3.gate", "Unmarshal|required-key loop exhausted", w.Pos(r.Pos()), "must-fact: range over the required keys ran to completion", "Unmarshal can succeed before every required key was looked up (loop left early)")
 		okChk := false
-		if chk != nil && len(chk.Call.Args) == 1 && chk.Call.Args[0] == ssa.Value(dec) {
+		if chk != nil && len(chk.Call.Args) == 1 && w.canon(fn, chk.Call.Args[0]) == ssa.Value(dec) {
 			if lk := lookupOn(chk.Call.Value, keyidCheckerTable, w); lk != nil && strings.HasSuffix(w.Expr(lk.Index), ".Version") {
 				if isNil, known := f.KnownNil(b, chk); known && isNil {
 					okChk = true
@@ -419,7 +419,7 @@ func checkKeyidUnmarshal(c *Ctx, kid *types.Named) {
 			}
 		}
 		c.Check(okChk, "R3.gate", "Unmarshal|consistency check passed", w.Pos(r.Pos()), "must-fact: checker(decoded) == nil", "Unmarshal can succeed without the must-fact that the version's checker accepted the decoded KeyID")
-		c.Check(r.Results[0] == ssa.Value(dec), "R3.gate", "Unmarshal|returns the decoded struct", w.Pos(r.Pos()), "the struct json decoded into", "Unmarshal returns something other than the struct it decoded and checked: "+w.Short(r.Results[0]))
+		c.Check(w.canon(fn, r.Results[0]) == ssa.Value(dec), "R3.gate", "Unmarshal|returns the decoded struct", w.Pos(r.Pos()), "the struct json decoded into", "Unmarshal returns something other than the struct it decoded and checked: "+w.Short(r.Results[0]))
 	}
 	c.Floor("R3.gate", n, 1, "successful return of Unmarshal")
 	// no field store into the decoded struct
